@@ -55,6 +55,9 @@ CHECKS = {
  "C02": ("exploration", "reference-model monitor over generated closure scenarios (nested function trees x escape routes x call orders x host-side vm.Get/vm.Call); the model mirrors the VM frame stack to attribute a recorded finding",
          "Scenario programs with function literals nested to depth 5, reading and writing bindings of any enclosing level and escaping through 12 routes, are evaluated by the reference interpreter (environment-pointer semantics) and by the real VM, including calls made from Go after the run; every observation, return value and the final state must agree. Held on the scenarios explored.",
          "Spawned calls are waited for at once (no interleavings). Disagreements are attributed to recorded finding D1 only when the model's mirror of the call stack shows an off-stack deep capture in that run.", "DESIGN.md §5 C02"),
+ "C08": ("exploration", "round-trip monitor over generated Go types (reflect-built and declared named types to depth 3) x values x routes (global, field read/write, method parameter/return), with delta-minimised type paths as signatures",
+         "Every enumerated (type, value, route) either converts to a script value with equal contents that converts back to an equal Go value, or is rejected with an error; a Go panic (escaping or VM-recovered) is never accepted; field writes read back equal from both sides; Go methods receive exactly the arguments passed. Types to depth 2 are exhaustive over the base-kind roster, depth 3 sampled (quick) / enumerated (thorough).",
+         "nil and empty slices/maps are not told apart; inside interface positions only contents are compared. Converter caches are process-global, so types are spread over fresh worker processes.", "DESIGN.md §5 C08"),
 }
 
 NOT_YET = {}
